@@ -342,9 +342,9 @@ theorem openStep_T (cfg : PartCfg) (s : DC) (h : TInv s) (x : Xml) (c : Bool) (r
   · exact withTrue_T (insertNewRun_T cfg.html s h _)
   · exact ⟨s, true, rfl, h⟩
 
-theorem closeStep_T (cfg : PartCfg) (s : DC) (h : TInv s) (x : Xml) (hv : validT x = true) (he : x.isElem = true) :
-    ∃ s', closeStep cfg s x = .ok s' ∧ TInv s' := by
-  unfold closeStep
+theorem closeStepCore_T (cfg : PartCfg) (s : DC) (h : TInv s) (x : Xml) (hv : validT x = true) (he : x.isElem = true) :
+    ∃ s', closeStepCore cfg s x = .ok s' ∧ TInv s' := by
+  unfold closeStepCore
   split
   · exact concludePar_T s h
   · exact commenceRun_T cfg.html s h none (by intro y hy; cases hy)
@@ -360,6 +360,18 @@ theorem closeStep_T (cfg : PartCfg) (s : DC) (h : TInv s) (x : Xml) (hv : validT
       | error e => simp [hs, Except.isOk] at this
     exact closeTableCell_T cfg.dup s h x ⟨pr, hpr, hsp⟩
   · exact ⟨s, rfl, h⟩
+
+theorem closeStep_T (cfg : PartCfg) (s : DC) (h : TInv s) (x : Xml) (hv : validT x = true) (he : x.isElem = true) :
+    ∃ s', closeStep cfg s x = .ok s' ∧ TInv s' := by
+  obtain ⟨s0, h0, t0⟩ := flushImplicit_total (P := TInv) concludePar_T s (elemDepth x) h
+  obtain ⟨s', h1, t1⟩ := closeStepCore_T cfg s0 t0 x hv he
+  exact ⟨s', by unfold closeStep; simp only [h0, ok_bind]; exact h1, t1⟩
+
+theorem setCaretOpen_T (s : DC) (h : TInv s) (d : Option Nat) (hd : ∀ k, d = some k → 1 ≤ k ∧ k ≤ 4) (n : Option Str) :
+    ∃ s', s.setCaretOpen d n = .ok s' ∧ TInv s' := by
+  obtain ⟨s0, h0, t0⟩ := flushImplicit_total (P := TInv) concludePar_T s d h
+  obtain ⟨s', h1, t1, _⟩ := setCaret_T s0 t0 d hd n
+  exact ⟨s', by unfold DC.setCaretOpen; simp only [h0, ok_bind]; exact h1, t1⟩
 
 theorem finish_T (cfg : PartCfg) (s : DC) (h : TInv s) : ∃ s', finish cfg s = .ok s' ∧ TInv s' := by
   unfold finish
@@ -377,7 +389,7 @@ theorem walk_T (cfg : PartCfg) (num : Dict Str (List NumAttr)) :
   | .elem i p t m a tx tl ks, hv, c, s, h => by
     have hk : validL ks = true := (validT_elem (.elem i p t m a tx tl ks) hv rfl).2
     simp only [walk]
-    obtain ⟨s1, h1, t1, _⟩ := setCaret_T s h (elemDepth (.elem i p t m a tx tl ks)) (elemDepth_range _) (some t.name)
+    obtain ⟨s1, h1, t1⟩ := setCaretOpen_T s h (elemDepth (.elem i p t m a tx tl ks)) (elemDepth_range _) (some t.name)
     simp only [h1, ok_bind]
     have hroots : ∃ roots, (if (Xml.elem i p t m a tx tl ks).ptag == hyperlinkTag
         then textBelowL cfg num (c || isCellTag (.elem i p t m a tx tl ks)) ks else pure []) = .ok roots ∧
